@@ -58,9 +58,10 @@ def oracle(case) -> list:
 
     seq, pairs = case[0], [tuple(p) for p in case[1]]
     st, g, comps = ssref.describe(seq, pairs)
-    if any(len(c) > 10 for c in comps):
-        return []
-    opt = ssref.optimal_score(st, g)
+    # beyond 10 stems in one group the reference optimiser is not run: properness, greedy stability against FCFS and
+    # ">= FCFS" are still judged, optimality is not
+    big = any(len(c) > 10 for c in comps)
+    opt = None if big else ssref.optimal_score(st, g)
     text = ssref.bpseq_text(seq, pairs)
     b = BpSeq.from_string(text)
     out = []
@@ -201,6 +202,9 @@ def plan(tier, seed):
         specs.append({"kind": "blowup", "examples": n, "max_abstract": m, "seed": seed * 1000 + idx})
     for k in range(4 if tier == "quick" else 16):
         specs.append({"kind": "large", "examples": 3 if tier == "quick" else 40, "seed": seed * 1000 + 700 + k})
+    # (k = 9, 10 are left out: the reference optimiser needs a minute on a clique of that size)
+    for k in [k for k in range(2, 14 if tier == "quick" else 21) if k not in (9, 10)]:
+        specs.append({"kind": "ladders", "ks": [k]})
     specs.append({"kind": "shaped", "examples": 300 if tier == "quick" else 2000, "seed": seed * 1000 + 99})
     return specs
 
@@ -231,6 +235,15 @@ def run_shard(spec) -> ShardResult:
                 check_case(PROP_ID, oracle, case, res, to_json=tj)
         res.exhaustive = True
         res.extra[f"chord_diagrams_k{spec['k']}"] = res.evaluations
+    elif kind == "ladders":
+        # k mutually crossing stems: the optimum needs k levels (two-digit level indices from k = 11 on)
+        for k in spec["ks"]:
+            for stem_len, gap in ((1, 0), (2, 1)):
+                case = ssref.ladder(k, stem_len, gap)
+                nt, labs = classify(case)
+                res.note_case(tj(case), nt, labs + [f"ladder-k={k}"], sample_cap=1)
+                check_case(PROP_ID, oracle, case, res, to_json=tj)
+        res.exhaustive = False
     elif kind == "large":
         # long structures; crossing groups are kept within the reference optimiser's reach (<= 10 stems)
         strat = ssref.st_large_structures(max_pairs=80, max_cross=3).filter(lambda c: all(len(x) <= 10 for x in ssref.describe(c[0], c[1])[2]))
